@@ -85,3 +85,55 @@ def run(ctx, res):
     res.floor("C08.R1", "mismatch arms analysed", arms, 2)
     from . import c07
     c07.element_kind_sites(ctx, res, "C08.R2")
+    body_and_end_search(ctx, res, b, inline, variants)
+
+
+def body_and_end_search(ctx, res, b, inline, variants):
+    """R3: the character that follows a complete start delimiter is a body character (at least one body character).
+    R4: in every state inside a tag body the end delimiter is looked for at every character (first occurrence)."""
+    P = ctx.lib
+    fn = fshort(b)
+    loc = T.loc(b["tree"])
+    # R3: DelimiterStart with its iterator exhausted -> (None, InDelimiter) whatever c is
+    I = A.Interp(P, inline=inline, max_paths=400)
+    outs = I.explore(lambda J: J.call_fn_body(b, [A.Sym("c"), A.Sym("delimiter_start"), A.Sym("delimiter_end"), A.Variant("State::DelimiterStart", [A.Sym("rest")])]))
+    done = [o for o in outs if o["decisions"].get("is_some(rest.next())") is False]
+    if not done:
+        res.cannot("C08.R3", fn, "start-complete", "no path on which the start delimiter is complete", loc)
+    else:
+        bad = [o for o in done if len(o["decisions"]) != 1 or A.show(o["value"]) != "(None, State::InDelimiter)"]
+        if bad:
+            res.add(Finding("C08.R3", fn, "first-body-character", "after a complete start delimiter the next character is not taken unconditionally as the first body character "
+                            "(outcome %s under %s): a tag with an empty body / an end delimiter abutting the start delimiter would be accepted"
+                            % (A.show(bad[0]["value"])[:80], {k: str(v) for k, v in bad[0]["decisions"].items()}), loc=loc))
+        else:
+            res.holds("C08.R3", fn, "first-body-character", "(None, InDelimiter) regardless of the character")
+    # R4: body states = payload-free variants other than the base text state (the seed of tokenize's fold)
+    tk = P.fn("tokenizer::tokenize")
+    seed_state = None
+    for n in T.nodes(tk["tree"], "mcall"):
+        if n["name"] == "fold" and T.render(n["recv"]) == "source.char_indices()":
+            seed = T.peel(n["args"][0])
+            if seed.get("k") == "tuple" and len(seed["es"]) >= 2:
+                seed_state = T.render(seed["es"][1]).split("::")[-1]
+    if seed_state is None:
+        res.cannot("C08.R4", fn, "base-state", "initial tokenizer state not found", loc)
+        return
+    body_states = [v for v, n_ in variants.items() if n_ == 0 and v != seed_state]
+    res.floor("C08.R4", "payload-free tag-body states", len(body_states), 1)
+    key = "eq(c, delimiter_end.chars().next().some)"
+    for st in body_states:
+        I = A.Interp(P, inline=inline, max_paths=400)
+        try:
+            outs = I.explore(lambda J, st=st: J.call_fn_body(b, [A.Sym("c"), A.Sym("delimiter_start"), A.Sym("delimiter_end"), A.Variant("State::" + st, [])]))
+        except A.Cannot as e:
+            res.cannot("C08.R4", fn, "state:" + st, str(e), loc)
+            continue
+        eq = [o for o in outs if o["decisions"].get(key) is True and o["exit"] != "panic"]
+        okk = bool(eq) and all(isinstance(o["value"], A.Tuple) and isinstance(o["value"].items[1], A.Variant) and o["value"].items[1].name == "State::DelimiterEnd" for o in eq) \
+            and all(key in o["decisions"] for o in outs if o["exit"] != "panic")
+        if okk:
+            res.holds("C08.R4", fn, "end-search-in:" + st, "c == first(delimiter_end) -> DelimiterEnd on every path")
+        else:
+            res.add(Finding("C08.R4", fn, "end-search-in:" + st, "in tag-body state %s a character equal to the first character of the end delimiter does not (always) start the end "
+                            "match: the tag would not end at the *first* occurrence of the end delimiter" % st, loc=loc))
